@@ -127,3 +127,31 @@ Definition all_kats := (skein256_256_empty, skein512_512_empty, skein1024_1024_e
   skein1024_32_len0, skein1024_32_len17, skein1024_32_len64,
   skein1024_64_len0, skein1024_64_len17, skein1024_64_len64).
 
+
+(** * Vectors of the Skein 1.3 paper, appendix C (independent of the crate's test data):
+      Skein-256-256 / Skein-512-512 / Skein-1024-1024 of the one-byte message FF, of exactly one
+      block and of exactly two blocks of the bytes FF FE FD ... (the last two exercise the
+      hold-back of a full final block) *)
+Definition countdown_ff (n : nat) : list N := map (fun i => 255 - N.of_nat i) (seq 0 n).
+
+Example paper_skein256_ff : be_join (skein skein256p 32 [0xff]) =
+  0x0B98DCD198EA0E50A7A244C444E25C23DA30C10FC9A1F270A6637F1F34E67ED2.
+Proof. vm_compute. reflexivity. Qed.
+Example paper_skein256_32 : be_join (skein skein256p 32 (countdown_ff 32)) =
+  0x8D0FA4EF777FD759DFD4044E6F6A5AC3C774AEC943DCFC07927B723B5DBF408B.
+Proof. vm_compute. reflexivity. Qed.
+Example paper_skein256_64 : be_join (skein skein256p 32 (countdown_ff 64)) =
+  0xDF28E916630D0B44C4A849DC9A02F07A07CB30F732318256B15D865AC4AE162F.
+Proof. vm_compute. reflexivity. Qed.
+Example paper_skein512_ff : be_join (skein skein512p 64 [0xff]) =
+  0x71B7BCE6FE6452227B9CED6014249E5BF9A9754C3AD618CCC4E0AAE16B316CC8CA698D864307ED3E80B6EF1570812AC5272DC409B5A012DF2A579102F340617A.
+Proof. vm_compute. reflexivity. Qed.
+Example paper_skein512_64 : be_join (skein skein512p 64 (countdown_ff 64)) =
+  0x45863BA3BE0C4DFC27E75D358496F4AC9A736A505D9313B42B2F5EADA79FC17F63861E947AFB1D056AA199575AD3F8C9A3CC1780B5E5FA4CAE050E989876625B.
+Proof. vm_compute. reflexivity. Qed.
+Example paper_skein512_128 : be_join (skein skein512p 64 (countdown_ff 128)) =
+  0x91CCA510C263C4DDD010530A33073309628631F308747E1BCBAA90E451CAB92E5188087AF4188773A332303E6667A7A210856F742139000071F48E8BA2A5ADB7.
+Proof. vm_compute. reflexivity. Qed.
+Example paper_skein1024_ff : be_join (skein skein1024p 128 [0xff]) =
+  0xE62C05802EA0152407CDD8787FDA9E35703DE862A4FBC119CFF8590AFE79250BCCC8B3FAF1BD2422AB5C0D263FB2F8AFB3F796F048000381531B6F00D85161BC0FFF4BEF2486B1EBCD3773FABF50AD4AD5639AF9040E3F29C6C931301BF79832E9DA09857E831E82EF8B4691C235656515D437D2BDA33BCEC001C67FFDE15BA8.
+Proof. vm_compute. reflexivity. Qed.
